@@ -10,6 +10,14 @@ CHECKS = {
             "Decides structural necessary conditions of the ordinal-sequence behaviour on the current source: normaliser = specification on all integers, only normalised positions index storage, slot gates, slice-bound forms, search convention, loop progress, commit-last, no zero ordinals. Not the behaviour over histories.",
             "go/types+go/cfg of x/tools v0.29.0; the spec tables in checker/c01.go; loop-carried element placement is not decided",
             "DESIGN.md 5/C01"),
+    "C02": ("static analysis: octagon abstract interpretation of one binary-search step under the inductive invariant size = last-first+1 against the canonical step (SYM), edge-condition and provenance rules for the two mutation gates (PATH), call-site tables",
+            "Decides: the set's storage is mutated only at the searched position on the correct found/not-found edge; all queries use the set's own search and collator; the search helper's arithmetic (probe inside the interval, correct half kept per rank, invariant preserved, strict decrease, slot = first-1 on exhaustion) for all integers. Sortedness itself is the induction hypothesis (needs C01's element placement and C07's preorder).",
+            "go/types, go/cfg of x/tools v0.29.0; spec of the canonical binary search in checker/c02.go",
+            "DESIGN.md 5/C02"),
+    "C03": ("static analysis: paired-effect analysis of the key map and the association list per method (EFFECT), path queries on go/cfg for the delete/remove pairing, provenance and dependence closure on the syntax tree",
+            "Decides: every change of the key index is coupled with the matching change of the ordered list (same association object, same key, same control region; delete/remove on the same found-paths), reordering methods leave the index alone, the removed list position is located by key identity rather than structural search. Agreement of the views over histories additionally needs C01's element placement.",
+            "go/types, go/cfg of x/tools v0.29.0",
+            "DESIGN.md 5/C03"),
     "C04": ("static analysis: post-construction write sets and lock-region must-analysis on go/cfg (EFFECT), dominance/pairing rules (PATH) over the queue's methods",
             "Decides the race-freedom and ordering preconditions of the FIFO queue: frozen-or-guarded fields, Lock/Unlock pairing, no blocking operation under the mutex, append-before-publish and receive-before-pop with the pop on the ok edge, capacity/channel agreement. Linearizability over interleavings is not decided.",
             "go/types, go/cfg of x/tools v0.29.0; Go memory model; runtime channel semantics",
